@@ -9,7 +9,7 @@
     - [op_valid] / [key_valid] / [KV]: keys are valid UTF-8 (for the statements that
       go through JSON; see [c28_json_roundtrip_refuted]).  Every key made by
       KeyString is ([c28_keystring_valid]). *)
-From Akita Require Import Lib.Base C28.Model C28.Spec C28.Proofs1 C28.Proofs2 C28.Exec C28.Proofs3.
+From Akita Require Import Lib.Base C28.Model C28.Spec C28.Proofs1 C28.Proofs2 C28.Exec C28.Proofs3 C28.Proofs4.
 From Coq Require Import Sorting.Sorted.
 Local Open Scope Z_scope.
 
@@ -91,6 +91,25 @@ Theorem c28_evict_lru : forall s s' w, Inv s -> evict s = (s', (w, true)) ->
   (forall x, In x (vl s') -> (lvof (lv s) w < lvof (lv s) x)%N) /\ ~ In w (vl s').
 Proof. exact evict_lru. Qed.
 Print Assumptions c28_evict_lru.
+
+(** The stamps are the history's visit times ([hist_stamp]: NewSet visits ways
+    0..n-1 in order, every later Visit call ticks the clock; scan backwards for the
+    last Visit of the way), so the way Evict returns after any history is literally
+    the listed way that was visited least recently. *)
+Theorem c28_stamp_is_last_visit_time : forall n s, 0 <= n -> new_set n = Some s ->
+  forall ops, (Z.to_N n + count_visits ops < two64)%N ->
+  forall x, lvof (lv (fst (run s ops))) x = hist_stamp n x (rev ops).
+Proof. exact stamp_history. Qed.
+Print Assumptions c28_stamp_is_last_visit_time.
+
+Theorem c28_evict_least_recently_visited : forall n s ops s' w,
+  0 <= n -> new_set n = Some s -> (Z.to_N n + count_visits ops < two64)%N ->
+  evict (fst (run s ops)) = (s', (w, true)) ->
+  In w (vl (fst (run s ops))) /\
+  forall x, In x (vl (fst (run s ops))) -> x <> w ->
+            (hist_stamp n w (rev ops) < hist_stamp n x (rev ops))%N.
+Proof. exact evict_least_recently_visited. Qed.
+Print Assumptions c28_evict_least_recently_visited.
 
 Theorem c28_evict_empty : forall s s' w, evict s = (s', (w, false)) -> vl s = [] /\ s' = s /\ w = 0.
 Proof. exact evict_empty. Qed.
@@ -196,7 +215,8 @@ Example c28_nonvacuous :
        RLookup 1 true; RLookup 0 false; RPanic; REvict 2 true;
        RKey [49; 48; 48; 48; 48; 48; 48; 48; 48; 48; 48; 48; 48; 49; 48; 48; 48]%N] /\
     vl (fst (run s ex_ops)) = [0; 1] /\
-    last_bound [107; 50]%N (rev ex_ops) = Some 1 /\ last_bound [107; 49]%N (rev ex_ops) = None.
+    last_bound [107; 50]%N (rev ex_ops) = Some 1 /\ last_bound [107; 49]%N (rev ex_ops) = None /\
+    hist_stamp 3 0 (rev ex_ops) = 4%N /\ hist_stamp 3 1 (rev ex_ops) = 5%N /\ hist_stamp 3 2 (rev ex_ops) = 3%N.
 Proof.
   destruct (new_set_R 3 (mk_set 3 (Some [0; 1; 2]) 3%N (Some [1; 2; 3]%N) (Some []))) as [[HI _] [HK _]];
     [lia|vm_compute; reflexivity|vm_compute; reflexivity|].
